@@ -67,3 +67,27 @@ Example C20_modexp_example :
   modexp_gas_of true (2^40) 32 32 1 = two64 - 1 /\ modexp_gas_of true 64 (2^30) 1 0 = 183251932501 /\
   modexp_gas_of false 64 32 64 (2^255) = 52224.
 Proof. exact ex_modexp. Qed.
+
+From Verif Require Import Model.Mem Model.MemSize Model.MemGas Proofs.MemGas_proofs.
+(** the frame's memory (the one retained allocation every instruction can grow): for every sequence of expansions the bytes held
+    are at most 32/3 x the gas paid for them (and the number of words squared at most 512 x that gas + 511) ... *)
+Theorem C20_memory_bytes_bounded_by_gas : forall sizes tot fin,
+  all_word_sizes sizes -> mg_run mg_init sizes = Some (tot, fin) ->
+  3 * fst fin <= 32 * tot /\ (fst fin / 32) * (fst fin / 32) <= 512 * tot + 511.
+Proof. exact memory_bytes_bounded_by_gas. Qed.
+Print Assumptions C20_memory_bytes_bounded_by_gas.
+
+(** ... and a single instruction cannot grow it by more than 32/3 bytes per unit of gas it is charged *)
+Theorem C20_step_growth_bounded_by_fee : forall st n fee st',
+  mg_inv st -> n mod 32 = 0 -> mg_step st n = Ok (fee, st') -> 3 * (fst st' - fst st) <= 32 * fee.
+Proof. exact step_growth_bounded_by_fee. Qed.
+Print Assumptions C20_step_growth_bounded_by_fee.
+
+(** ... stated for the instructions themselves: for every instruction that names a memory region and every stack, the length
+    the next instruction of the frame sees (Model/MemSize.v) is the length the fee was computed for, the bookkeeping
+    invariant is kept, and the growth is paid for *)
+Theorem C20_instruction_growth_paid : forall op s st n fee st',
+  mg_inv st -> rounded_size op s = Some n -> mg_step st n = Ok (fee, st') ->
+  mem_after op s (fst st) = Some (fst st') /\ mg_inv st' /\ 3 * (fst st' - fst st) <= 32 * fee.
+Proof. exact instruction_growth_paid. Qed.
+Print Assumptions C20_instruction_growth_paid.
